@@ -19,8 +19,12 @@ def stress(task):
             b = product.build_product(level=("1.5", "1.1")[(i + task["seed"]) % 2], images=(("HH", None, 2 + i, 2),), seed=task["seed"] * 10 + i, leader=v)
             built.append(b)
             urls.append(imgrun.put_on_fs(b, task["fs"], f"cc_{task['seed']}_{i}"))
-        for u in urls:
-            refs.append(project.fingerprint(ceos_alos2.open_alos2(u, backend_options={"use_cache": False})))
+        for i, u in enumerate(urls):
+            try:
+                refs.append(project.fingerprint(ceos_alos2.open_alos2(u, backend_options={"use_cache": False})))
+            except BaseException as e:  # noqa: B902 -- a well-formed product that does not even open alone
+                out["bad"].append(("raises", f"product {i} (leader variant {variants[i]}) opened alone raised {type(e).__name__}: {str(e)[:160]}"))
+                return out
         old = sys.getswitchinterval()
         sys.setswitchinterval(1e-6)
         try:
